@@ -53,7 +53,7 @@ def NOT(x):
 # sorts of state variables (by name prefix)
 # ----------------------------------------------------------------------------------------------------------------
 BOOL_PREFIX = ("flag", "swept", "sdret", "pf", "done", "started", "tf", "acc", "rej", "late", "missed", "early",
-               "crash", "igterm", "hasto", "pfail", "sdreq")
+               "crash", "igterm", "hasto", "pfail", "sdreq", "uf")
 BV_PREFIX = {"lock": 6, "nreg": 3, "regpos": 3, "proc": 2, "exc": 2, "nset": 2, "res": 2, "pc": 8, "snap": 3, "it": 3}
 CONST_PREFIX = ("igterm", "hasto", "pfail")
 
@@ -84,13 +84,14 @@ SENSITIVE_ATTRS = {
 }
 SENSITIVE_NAMES = {"psutil", "subprocess", "threading", "concurrent", "Popen", "weakref", "super"}
 BENIGN_PROCESS_ATTRS = {"stdout", "stderr", "stdin", "returncode"}
+USER_FLAGS: set = set()  # filled by Source (boolean fields of PopenFuture outside the fixed vocabulary)
 
 
 def is_sensitive(n) -> bool:
     if isinstance(n, ast.Attribute):
         if (n.attr in BENIGN_PROCESS_ATTRS and isinstance(n.value, ast.Attribute) and n.value.attr == "process"):
             return is_sensitive(n.value.value)
-        if n.attr in SENSITIVE_ATTRS or n.attr == "process":
+        if n.attr in SENSITIVE_ATTRS or n.attr == "process" or n.attr in USER_FLAGS:
             return True
         return is_sensitive(n.value)
     if isinstance(n, ast.Name):
@@ -117,9 +118,39 @@ class Source:
         for c in ("PopenFuture", "PopenExecutor"):
             if c not in self.classes:
                 raise Unsupported(f"class {c} not found in processes.py")
+        self.user_flags = self._user_flags()
         # line -> statement id (innermost statement owning that line; compound statements own their header lines)
         self.stmt_of: dict[int, int] = {}
         self._index(self.tree)
+
+    def _user_flags(self) -> list:
+        """boolean fields of PopenFuture outside the fixed vocabulary: `self.X` that is only ever assigned the constants
+        True / False (False in __init__) and is read somewhere.  Each becomes one boolean state variable per job."""
+        USER_FLAGS.clear()
+        assigned, bad, read = {}, set(), set()
+        for cname, methods in self.classes.items():
+            for mname, fn in methods.items():
+                for n in ast.walk(fn):
+                    if isinstance(n, ast.Attribute) and isinstance(n.value, ast.Name) and n.value.id == "self" \
+                            and cname == "PopenFuture" and isinstance(n.ctx, ast.Load):
+                        read.add(n.attr)
+                    if isinstance(n, (ast.Assign, ast.AnnAssign, ast.AugAssign)):
+                        tg = n.targets if isinstance(n, ast.Assign) else [n.target]
+                        for t in tg:
+                            for a in ast.walk(t):
+                                if isinstance(a, ast.Attribute) and isinstance(a.ctx, ast.Store):
+                                    ok = (cname == "PopenFuture" and isinstance(a.value, ast.Name) and a.value.id == "self"
+                                          and isinstance(n, ast.Assign) and len(n.targets) == 1 and a is n.targets[0]
+                                          and isinstance(n.value, ast.Constant) and isinstance(n.value.value, bool)
+                                          and (mname != "__init__" or n.value.value is False))
+                                    if ok:
+                                        assigned.setdefault(a.attr, []).append(n.value.value)
+                                    else:
+                                        bad.add(a.attr)
+        flags = sorted(x for x in assigned if x not in bad and x in read and x not in SENSITIVE_ATTRS
+                       and x not in ("process",) and x not in BENIGN_PROCESS_ATTRS)
+        USER_FLAGS.update(flags)
+        return flags
 
     def _index(self, node):
         for st in ast.walk(node):
@@ -464,6 +495,9 @@ class Model:
             j = so[1]
             if s == "self.process":
                 return ("cond", ("b", f"pf{j}"), None, [])
+            if isinstance(e, ast.Attribute) and isinstance(e.value, ast.Name) and e.value.id == "self" \
+                    and e.attr in self.src.user_flags:
+                return ("cond", ("b", self.var(f"uf{self.src.user_flags.index(e.attr)}_{j}")), None, [])
             if s == "self.process.poll() is None":
                 return ("cond", ("eq", f"proc{j}", P_RUN), None, [])
             m = re.fullmatch(r"self\.(\w+)\(\)", s)
@@ -733,6 +767,10 @@ class Model:
                     (("ne", f"proc{j}", P_RUN), [], rest(), False, "return"),
                     (AND(("b", f"hasto{j}"), ("eq", f"proc{j}", P_RUN)), [(f"tf{j}", ("const", True))],
                      k.exc("TIMEOUT_SUB"), True, "timeout")])
+            if len(targets) == 1 and targets[0].startswith("self.") and targets[0][5:] in self.src.user_flags \
+                    and isinstance(val, ast.Constant) and isinstance(val.value, bool):
+                name = self.var(f"uf{self.src.user_flags.index(targets[0][5:])}_{j}")
+                return simple_node("uflag-set", [(T, [(name, ("const", val.value))], rest())])
             if targets == ["self._exception"] and isinstance(val, ast.Name) and env.get(val.id, ("",))[0] == "exc":
                 kind = env[val.id][1]
                 return simple_node("set-exc", [(T, [(f"exc{j}", ("const", X_TIMEOUT if kind == "TIMEOUT_SUB"
